@@ -532,6 +532,16 @@ def main():
                          'stage_failures': sum(1 for pr in res['programs'].values() for s in pr['stage'] if not s[1]),
                          'distribution': {k: c[k] for k in c if k in ('errors', 'customs', 'switch_cases', 'ctor_groups', 'clone_traces', 'nontrivial_cases', 'programs_with_rewind', 'spec_cases', 'impl_spec_equal', 'spec_unavailable') or k.startswith('ref_')},
                          'samples': res['samples'][:4]})
+    if prop == 'C16':
+        # scoping is behaviour: every corpus definition that uses `let` bindings (top-level, rule-set local, the same name in several
+        # scopes, under `#`, in right contexts) must lex like the definition with the bindings substituted scope by scope — which is
+        # what the reference lexer and the executable specification do
+        v, _breaks = decide_from_corpus('C01', res, builtins, seed, lambda nm, pr: pr.get('features', {}).get('has_let', False))
+        for x in v[:4]:
+            x = dict(x)
+            x['what'] = 'a definition with `let` bindings does not behave like the definition with its bindings substituted scope by scope: ' + x.get('what', '')
+            violations.append(x)
+        coverage['programs_with_bindings'] = sum(1 for pr in res['programs'].values() if pr.get('features', {}).get('has_let'))
     if spec is not None:
         r = spec(tier, seed, res, builtins, log)
         violations += r.get('violations', [])
